@@ -51,6 +51,7 @@ tests  : (labelled measured tests, not theorems) scale-optimal normalised stress
 import json
 import math
 import os
+import random
 import shutil
 import threading
 from fractions import Fraction
@@ -157,6 +158,8 @@ def case_text(c):
         return "RPM %s %d %d %d %d\n" % (c["id"], c["D"], c["d"], c["srand"], c["reps"])
     if k == "RPP":
         return "RPP %s %d %d %d\n" % (c["id"], c["D"], c["d"], c["srand"])
+    if k == "RPS":
+        return "RPS %s %d %d %d\n" % (c["id"], c["D"], c["d"], c["srand"])
     if k == "RPF":
         return "RPF %s %d %d %d %s\n" % (c["id"], c["D"], c["d"], len(c["rand"]), " ".join(map(str, c["rand"])))
     if k == "URN":
@@ -221,8 +224,8 @@ def parse_block(lines):
             r["USEDRAND"] = int(w[1])
         elif t == "US":
             r["US"] = [float.fromhex(x) for x in w[1:]]
-        elif t == "M":
-            r["M"] = parse_rows(w[1:])
+        elif t in ("M", "M2"):
+            r[t] = parse_rows(w[1:])
         elif t.startswith("["):
             continue          # library log lines
         elif t == "PU":
@@ -1517,6 +1520,59 @@ def eval_polar(ctx, exe_plain, mexe, rng, st, shapes):
             st.nontrivial.add(json.dumps(["RPP", c["D"], c["d"], c["srand"]]))
 
 
+def eval_reseed(ctx, exe_plain, st, shapes, seed, cases=None):
+    """translation pair under ONE std::rand seed, on the SHIPPED generator (-DC19_PLAIN): the property's "invariant to
+    translating the data ... for all seeds of std::rand" compares embed(X) after srand(s) with embed(X + t) after srand(s);
+    the two calls must project with the same matrix, i.e. gaussian_projection_matrix must be a function of the std::rand
+    stream alone (no state of an earlier call may survive).  Odd and even entry counts (the polar method produces its
+    deviates in pairs).  On a difference the pair is completed in binary64 here: Y0 = (X - mean) M, Y1 = (X + t - mean') M2."""
+    r_ = random.Random(seed * 7919 + 19)
+    if cases is None:
+        cases = [{"kind": "RPS", "id": "s%d" % i, "D": D, "d": d, "srand": r_.randrange(1, 1 << 30)} for i, (D, d) in enumerate(shapes)]
+    res = run_impl(ctx, exe_plain, cases)
+    for c, r in zip(cases, res):
+        st.evals += 1
+        st.count("RPS")
+        if r["status"] == "SKIP":
+            continue
+        if r["status"] in ("BADINPUT", "BADCMD"):
+            ctx.note("harness refused the reseed case %s (check bug, not a verdict)" % c["id"])
+            continue
+        D, d = c["D"], c["d"]
+        if r["crashed"] or r["status"] == "GARBAGE" or "M" not in r or "M2" not in r:
+            ctx.violation(public(c), "gaussian_projection_matrix aborts / prints garbage when called twice: " + str(r.get("detail"))[:400])
+            continue
+        M, M2 = r["M"], r["M2"]
+        if len(M) != D or len(M2) != D or any(len(row) != d for row in M + M2):
+            ctx.violation(public(c), "gaussian_projection_matrix(%d, %d) returned a matrix of another shape" % (D, d))
+            continue
+        if M == M2:
+            st.nontrivial.add(json.dumps(["RPS", D, d, c["srand"]]))
+            if (D * d) % 2:
+                st.count("RPS/odd-entry-count")
+            continue
+        i, j = next((i, j) for i in range(D) for j in range(d) if M[i][j] != M2[i][j])
+        N = 4
+        X = c.get("X") or [[float(r_.randint(-8, 8)) for _ in range(D)] for _ in range(N)]
+        shift = c.get("shift") or [float(r_.choice([1, 2, 16])) for _ in range(D)]
+        N = len(X)
+
+        def proj(rows, mat):
+            mean = [sum(row[t] for row in rows) / len(rows) for t in range(D)]
+            return [[sum((row[t] - mean[t]) * mat[t][col] for t in range(D)) for col in range(d)] for row in rows]
+        Y0 = proj(X, M)
+        Y1 = proj([[x + t for x, t in zip(row, shift)] for row in X], M2)
+        scale = max([abs(v) for row in Y0 for v in row] + [1e-300])
+        worst = max(abs(a - b) for ra, rb in zip(Y0, Y1) for a, b in zip(ra, rb)) / scale
+        ctx.violation(dict(public(c), X=X, shift=shift),
+                      "Random Projection is not invariant to translating the data under a fixed std::rand seed: after srand(%d) "
+                      "gaussian_projection_matrix(%d, %d) returns entry (%d,%d) = %r, and called again after the same srand(%d) "
+                      "(the second call of the pair X, X + t) it returns %r there: the matrix is not a function of the "
+                      "std::rand stream, and the centred samples of X and of X + %s projected with the two matrices differ by "
+                      "%.3g relative (dyadic X: the centred samples are identical)" % (
+                          c["srand"], D, d, i, j, M[i][j], c["srand"], M2[i][j], shift, worst))
+
+
 def polar_entry_check(c, xs, flat):
     """-> None or text: entry e of the matrix must be x_e * sqrt(-2 ln s_e / s_e) / sqrt(D) for the accepted (x_e, s_e)"""
     for e, ((xq, sq), got) in enumerate(zip(xs, flat)):
@@ -1770,6 +1826,9 @@ def run(ctx):
     eval_pairs(ctx, exe, mexe, [c for c in corp if c["kind"] in ("RP", "FA")] + pairs, st)
     eval_polar(ctx, exe_plain, mexe, rng, st, budget["polar"])
     eval_forced(ctx, exe_plain, mexe, rng, st, budget["forced"])
+    # round 5: two calls under one seed must draw the same matrix (own PRNG: the streams after this line are unchanged)
+    eval_reseed(ctx, exe_plain, st, [(5, 3), (3, 3), (1, 1), (7, 1), (4, 3), (2, 2)] +
+                ([] if quick else [(9, 5), (15, 1), (1, 13), (8, 8), (3, 7), (11, 11)]), ctx.seed)
     # wave 3: the iteration count at N = 205 (binary64 floor(0.04 N N) is 1680, N N / 25 is 1681), keywords left unset vs set
     # to their documented defaults, calls from inside an application's parallel region (thread limit below the team size)
     eval_spe(ctx, exe, mexe, [gen_spe_sched_only(rng, "n205", 205, True)] +
@@ -1824,7 +1883,7 @@ def run(ctx):
 
 
 def replay(ctx, case):
-    exe, exe_plain = build_all(ctx, want_plain=(case.get("kind") in ("RPM", "RPP", "RPF", "URN")))
+    exe, exe_plain = build_all(ctx, want_plain=(case.get("kind") in ("RPM", "RPP", "RPF", "URN", "RPS")))
     mexe = ctx.extract()
     st = Stats()
     c = dict(case)
@@ -1854,6 +1913,8 @@ def replay(ctx, case):
         eval_polar(ctx, exe_plain, mexe, ctx.rng, st, [(c["D"], c["d"], c.get("srand", 1))])
     elif kind in ("RPF", "URN"):
         eval_forced(ctx, exe_plain, mexe, ctx.rng, st, 0, cases=[c])
+    elif kind == "RPS":
+        eval_reseed(ctx, exe_plain, st, [], ctx.seed, cases=[c])
     elif kind == "RPM":
         res = run_impl(ctx, exe_plain, [c])
         print(res[0])
